@@ -377,6 +377,17 @@ func (w *ApiWorld) ExecRpc(r Rpc) *RpcResult {
 				body = strings.Join(parts, ";") + "|next=" + nextField(resp.NextPageToken)
 			}
 			fields = fmt.Sprintf("project=%s size=%d tok=%s", Enc(r.Project), r.Size, tokenField(r.Token))
+		case "listTopicSubs":
+			var resp *pubsubpb.ListTopicSubscriptionsResponse
+			resp, err = w.Pub.ListTopicSubscriptions(ctx, &pubsubpb.ListTopicSubscriptionsRequest{Topic: r.Name, PageSize: r.Size, PageToken: r.Token})
+			if err == nil {
+				parts := make([]string, len(resp.Subscriptions))
+				for i, x := range resp.Subscriptions {
+					parts[i] = "name=" + Enc(x)
+				}
+				body = strings.Join(parts, ";") + "|next=" + nextField(resp.NextPageToken)
+			}
+			fields = fmt.Sprintf("topic=%s size=%d tok=%s", Enc(r.Name), r.Size, tokenField(r.Token))
 		case "modifyPush":
 			_, err = w.Sub.ModifyPushConfig(ctx, &pubsubpb.ModifyPushConfigRequest{Subscription: r.Name, PushConfig: pushPB(r.Push)})
 			fields = "name=" + Enc(r.Name) + " push=" + pushField(r.Push)
